@@ -782,6 +782,9 @@ func smtUnescape(s string) string {
 // into a real Git environment and the real manifest is asked what it uses.
 
 func replayC15(w *World, ob *Obligation, vc *VC) (bool, string) {
+	if strings.Contains(ob.Name, ").makeRequest#assert@call_") {
+		return replayC15AuthLoop(w, strings.Contains(ob.Name, "basicUploadAdapter"))
+	}
 	if !strings.Contains(ob.Name, "newConcreteManifest#post") {
 		return false, "no replay template for this obligation\n"
 	}
@@ -1108,6 +1111,67 @@ func TestVerifReplayC06Null(t *testing.T) {
 }
 `
 	out, passed, err := runOverlayTest(w.repoDir, "tq", "zz_verif_replay_test.go", test, "TestVerifReplayC06Null")
+	if err != nil {
+		return false, "replay could not run: " + err.Error() + "\n"
+	}
+	return !passed && strings.Contains(out, "REPRODUCED"), trimOut(out)
+}
+
+// C15, makeRequest repeating the request for an authenticated action: the
+// counterexample is t.Authenticated at the recursive call.  The replay sends
+// such a transfer to a storage server that keeps answering 401 and counts.
+
+func replayC15AuthLoop(w *World, upload bool) (bool, string) {
+	adapter := "&basicDownloadAdapter{newAdapterBase(nil, \"basic\", Download, nil)}"
+	method := "GET"
+	if upload {
+		adapter = "&basicUploadAdapter{newAdapterBase(nil, \"basic\", Upload, nil)}"
+		method = "PUT"
+	}
+	test := `package tq
+
+import (
+	"net/http"
+	"net/http/httptest"
+	"os"
+	"path/filepath"
+	"sync/atomic"
+	"testing"
+	"time"
+
+	"github.com/git-lfs/git-lfs/v3/lfsapi"
+	"github.com/git-lfs/git-lfs/v3/lfshttp"
+)
+
+func TestVerifReplayC15AuthLoop(t *testing.T) {
+	var hits int32
+	srv := httptest.NewServer(http.HandlerFunc(func(w http.ResponseWriter, r *http.Request) {
+		atomic.AddInt32(&hits, 1)
+		w.WriteHeader(401)
+	}))
+	defer srv.Close()
+	cli, err := lfsapi.NewClient(lfshttp.NewContext(nil, nil, map[string]string{"lfs.url": srv.URL}))
+	if err != nil {
+		t.Fatal(err)
+	}
+	a := ` + adapter + `
+	a.apiClient = cli
+	path := filepath.Join(t.TempDir(), "obj")
+	os.WriteFile(path, []byte("some content\n"), 0600)
+	tr := &Transfer{Oid: "4d7a214614ab2935c943f9e0ff69d22eadbb8f32b1258daaa5e2ca24d17e2393", Size: 13, Path: path, Authenticated: true}
+	req, _ := http.NewRequest("` + method + `", srv.URL+"/obj", nil)
+	done := make(chan struct{})
+	go func() { a.makeRequest(tr, req); close(done) }()
+	select {
+	case <-done:
+	case <-time.After(2 * time.Second):
+	}
+	if n := atomic.LoadInt32(&hits); n > 9 {
+		t.Errorf("REPRODUCED: the action was marked authenticated and the storage host answered 401 every time: %d identical requests were sent within 2 s and makeRequest was still repeating (lfs.transfer.maxretries is 8)", n)
+	}
+}
+`
+	out, passed, err := runOverlayTest(w.repoDir, "tq", "zz_verif_replay_test.go", test, "TestVerifReplayC15AuthLoop")
 	if err != nil {
 		return false, "replay could not run: " + err.Error() + "\n"
 	}
